@@ -41,6 +41,10 @@ ROLES_FN = {'location_parameters': 'LOC', 'scaling_parameters': 'SCALE',
 
 
 def run(prog, res):
+  from ..rules import guards as _g
+  for q in ('kronecker_factored_lattice_lib.evaluate_with_hypercube_interpolation',):
+    _g.check_clip_paths(prog, res, prog.function(q))
+  res.floor('X5', 1)
   _cdf_pair(prog, res)
   _pwl_weights(prog, res)
   _combinators(prog, res)
